@@ -285,6 +285,13 @@ def _tables(tier, seed):
             pexp = sum(demand.loc[t, j] * (Pstar + elevation[j]) for j in js)
             ref.append((pout - pexp) / pexp)
         checks.append(("mri_system", close(mri2.values, ref)))
+        # the elevation table is matched with the junction columns by name, whatever its order
+        shuffled = elevation.sort_values(ascending=bool(it % 2))
+        checks.append(("mri_system_elevation_in_another_order", close(wntr.metrics.modified_resilience_index(pressure, shuffled, Pstar, demand=demand, per_junction=False).values, ref)))
+        m3 = wntr.metrics.modified_resilience_index(pressure, shuffled, Pstar, per_junction=True)
+        checks.append(("mri_per_junction_elevation_in_another_order", close(m3[js].values, [[(pressure.loc[t, j] - Pstar) / (Pstar + elevation[j]) for j in js] for t in times])))
+        wsa2 = wntr.metrics.water_service_availability(exp[js[::-1]], demand)
+        checks.append(("wsa_columns_in_another_order", close(wsa2[js].values, [[demand.loc[t, j] / exp.loc[t, j] for j in js] for t in times])))
         for nm, ok in checks:
             evals += 1
             distinct.add((nm, nj, nt))
@@ -388,6 +395,19 @@ def _network_metrics(tier, seed):
                 distinct.add((rel, "pump", pn))
                 if not ok:
                     failures.append(dict(net=rel, check="pump power/energy/cost formulas", pump=pn))
+            # a pump on its own tariff (no price pattern): its energy is costed at its own price, the others at the global one
+            first = wn.pump_name_list[0]
+            own = 3.1e-8
+            wn.get_link(first).energy_price = own
+            try:
+                cost2 = wntr.metrics.pump_cost(en, wn)
+                ok = all(np.allclose(cost2[pn].astype(float), en[pn].astype(float) * (own if pn == first else wn.options.energy.global_price)) for pn in wn.pump_name_list)
+            finally:
+                wn.get_link(first).energy_price = None
+            evals += 1
+            distinct.add((rel, "pump_own_price", first))
+            if not ok:
+                failures.append(dict(net=rel, check="a pump with its own energy price is costed at that price, the others at the global price", pump=first))
         # tank capacity
         if wn.num_tanks:
             pr = res.node["pressure"].loc[:, wn.tank_name_list]
